@@ -21,15 +21,36 @@ RULE = ("random removal-enabled graphs of both classes with JSON-native node ids
 MIN = {"quick": {"links==model": 3000, "rebuilt:has_interaction(u,v,t)": 50000, "directed-arg": 3000},
        "thorough": {"links==model": 60000, "rebuilt:has_interaction(u,v,t)": 1000000, "directed-arg": 60000}}
 REQUIRED_CELLS = {t: ("class:DynGraph", "class:DynDiGraph", "ids:int", "ids:str", "idkey:custom", "idkey:default",
-                      "src:isolated", "src:reciprocal", "src:self-loop", "attr-named-id") for t in ("quick", "thorough")}
+                      "src:isolated", "src:reciprocal", "src:self-loop", "attr-named-id", "ids:textual-twins",
+                      "attr-named-like-link-fields") for t in ("quick", "thorough")}
 
 
 def one(ctx, dn):
     from dynetx.readwrite import json_graph
     rng = ctx.rng
     directed = rng.random() < 0.5
-    fam = rng.choice(("int", "str"))
-    prog, f = gen.random_program(rng, lambda: Model(directed, True), directed=directed, family=fam, with_nodes=False)
+    fam = rng.choice(("int", "str", "int", "str", "textual-twins"))
+    prog, f = gen.random_program(rng, lambda: Model(directed, True), directed=directed,
+                                 family="int" if fam == "textual-twins" else fam, with_nodes=False,
+                                 tfamily=rng.choice(("small", "small", "neg", "big", "huge")), p_big=0.03)
+    if fam == "textual-twins":
+        # ids that are different keys but have the same text: 1 and "1", 2 and "2" (both JSON-native)
+        seen = []
+        for op in prog:
+            for (u, v, t, e) in gen.elements(op):
+                for x in (u, v):
+                    if x not in seen:
+                        seen.append(x)
+        twin = {x: (str(seen[i - 1]) if i % 2 else x) for i, x in enumerate(seen)}
+
+        def rn(op):
+            if op[0] == "add":
+                return (op[0], twin[op[1]], twin[op[2]], op[3], op[4])
+            if op[0] == "addfrom":
+                return (op[0], [(twin[x[0]], twin[x[1]]) + tuple(x[2:]) for x in op[1]], op[2], op[3])
+            return (op[0], [twin[x] for x in op[1]]) + tuple(op[2:])
+        prog = [rn(op) for op in prog]
+        ctx.cell("ids:textual-twins")
     G, m, ok = driver.build_accepted(dn, prog, directed)
     if not ok or not m.nontrivial():
         ctx.skip("graph not built")
@@ -38,18 +59,23 @@ def one(ctx, dn):
     idkey = rng.choice(("id", "id", "name", "key"))
     ctx.case = dict(workload="JSON", directed=directed, program=prog, idkey=idkey)
     ctx.cell("class:" + ("DynDiGraph" if directed else "DynGraph"))
-    ctx.cell("ids:" + fam)
+    if fam != "textual-twins":
+        ctx.cell("ids:" + fam)
     ctx.cell("idkey:" + ("default" if idkey == "id" else "custom"))
     # attributes
     n0 = next(iter(m.nodes))
     a0 = {"color": "red", "w": [1, 2, {"x": None}], "f": 1.5, "ok": True}
+    if rng.random() < 0.4:
+        # attribute names that coincide with the field names of a link record
+        a0.update({"source": "s-attr", "target": ["t-attr"], "time": 12})
+        ctx.cell("attr-named-like-link-fields")
     if idkey != "id" and rng.random() < 0.5:
         a0["id"] = "an ordinary attribute when the id key is %r" % idkey
         ctx.cell("attr-named-id")
     G.add_node(n0, **copy.deepcopy(a0))
     m.add_node(n0, **copy.deepcopy(a0))
     if rng.random() < 0.7:
-        iso = 777 if fam == "int" else "iso"
+        iso = 777 if fam in ("int", "textual-twins") else "iso"
         G.add_node(iso, tags=["t"])
         m.add_node(iso, tags=["t"])
         ctx.cell("src:isolated")
